@@ -2,10 +2,8 @@
     of the library as a function from a list of byte strings to a result
     class and a list of byte strings (the projected observables).  The Go
     harness implements the same table on top of the real code. *)
-From DV Require Import Base.Bytes Label.Model V4.Model.
+From DV Require Import Base.Bytes Label.Model V4.Model V6.Model V6.Dump.
 
-Definition nil_marker (o : option bytes) : bytes := match o with None => [x00] | Some _ => [x01] end.
-Definition obytes (o : option bytes) : bytes := match o with None => [] | Some b => b end.
 
 (** entry 1: rfc1035label.FromBytes(b) -> Labels *)
 Definition e_label_from (args : list bytes) : res (list bytes) :=
@@ -79,6 +77,32 @@ Definition e_v4_encdec (args : list bytes) : res (list bytes) :=
   | Some p => let* b := enc4 p in let* p' := dec4 b in Ok (obs_pkt4 p')
   | None => Err end.
 
+(** * DHCPv6 *)
+(** entry 20: dhcpv6.FromBytes(b) -> value tree *)
+Definition e_v6_dec (args : list bytes) : res (list bytes) :=
+  match args with [b] => let* m := dec_msg b in Ok (dump_msg m) | _ => Err end.
+(** entry 21: FromBytes(b).ToBytes() *)
+Definition e_v6_reenc (args : list bytes) : res (list bytes) :=
+  match args with
+  | [b] => let* m := dec_msg b in if msg_panics m then Panic else Ok [enc_msg m]
+  | _ => Err end.
+(** entry 22: ParseOption(code, data) -> value tree *)
+Definition e_v6_opt (args : list bytes) : res (list bytes) :=
+  match args with [c; d] => let* o := parse_option (n_of_be c) d in Ok (dump_opt o) | _ => Err end.
+(** entry 23/24: MessageFromBytes / RelayMessageFromBytes *)
+Definition e_v6_message (args : list bytes) : res (list bytes) :=
+  match args with [b] => let* m := dec_message b in Ok (dump_msg m) | _ => Err end.
+Definition e_v6_relay (args : list bytes) : res (list bytes) :=
+  match args with [b] => let* m := dec_relay b in Ok (dump_msg m) | _ => Err end.
+(** entry 25: DUIDFromBytes *)
+Definition e_v6_duid (args : list bytes) : res (list bytes) :=
+  match args with [b] => let* d := dec_duid b in Ok (dump_duid d ++ [enc_duid d]) | _ => Err end.
+(** entry 26: ParseOption(code, data).ToBytes() *)
+Definition e_v6_opt_reenc (args : list bytes) : res (list bytes) :=
+  match args with
+  | [c; d] => let* o := parse_option (n_of_be c) d in if opt_panics o then Panic else Ok [enc_val o]
+  | _ => Err end.
+
 Definition run (entry : N) (args : list bytes) : res (list bytes) :=
   match entry with
   | 1 => e_label_from args
@@ -90,5 +114,12 @@ Definition run (entry : N) (args : list bytes) : res (list bytes) :=
   | 12 => e_v4_reenc args
   | 13 => e_v4_opts args
   | 14 => e_v4_encdec args
+  | 20 => e_v6_dec args
+  | 21 => e_v6_reenc args
+  | 22 => e_v6_opt args
+  | 23 => e_v6_message args
+  | 24 => e_v6_relay args
+  | 25 => e_v6_duid args
+  | 26 => e_v6_opt_reenc args
   | _ => Err
   end%N.
